@@ -214,7 +214,7 @@ pub fn c03(o: &Opts) -> i32 {
         return ctx.finish(2, "replay of one recorded case", &[], &[]);
     }
     let q = ctx.quick();
-    let spec = PoolSpec { walk_depth: if q { 2 } else { 3 }, walk_cap_per_root: if q { 400 } else { 6000 }, setups: if q { 15000 } else { 250000 }, endings: 1000, games: if q { 40 } else { 500 }, game_plies: 200, game_stride: 1 };
+    let spec = PoolSpec { walk_depth: if q { 2 } else { 3 }, walk_cap_per_root: if q { 1500 } else { 8000 }, setups: if q { 80000 } else { 400000 }, endings: 2000, games: if q { 150 } else { 800 }, game_plies: 200, game_stride: 1 };
     let mut cases = position_pool(o.seed, &spec);
     shuffle_tail(&mut cases, gen::corpus().len(), o.seed);
     run_pool(&ctx, &cases, 0.97, c03_case);
@@ -250,9 +250,25 @@ fn c06_with(ctx: &Ctx, l: &mut Local, case: &Case, b: &mut Board, g: &mut MoveGe
     let in_check = p.in_check(p.turn);
     let status = if !legal.is_empty() { "none" } else if in_check { "checkmate" } else { "stalemate" };
     let mut fails: Vec<(String, String)> = vec![];
+    // both colours, in either order (the side not to move is never in check in a consistent position)
+    let other = p.turn.opp();
+    let other_first = (p.key_hash() >> 7) & 1 == 0;
+    if other_first {
+        let oc = evaluate::player_is_in_check(b, g, ecol(other));
+        l.inc("verdicts_for_the_side_not_to_move");
+        if oc != p.in_check(other) { fails.push((format!("c06:in-check-other-colour:{}", who), format!("player_is_in_check({:?}) = {} for the side not to move", other, oc))); }
+    }
     let chk = evaluate::player_is_in_check(b, g, turn);
     if chk != in_check { fails.push((format!("c06:in-check:{}", who), format!("player_is_in_check = {} but the king {} attacked", chk, if in_check { "is" } else { "is not" }))); }
     if b.turn() == turn { let c2 = evaluate::current_player_is_in_check(b, g); if c2 != in_check { fails.push((format!("c06:current-in-check:{}", who), format!("current_player_is_in_check = {}", c2))); } }
+    if !other_first {
+        let oc = evaluate::player_is_in_check(b, g, ecol(other));
+        l.inc("verdicts_for_the_side_not_to_move");
+        if oc != p.in_check(other) { fails.push((format!("c06:in-check-other-colour:{}", who), format!("player_is_in_check({:?}) = {} for the side not to move (asked right after the side to move)", other, oc))); }
+        // and the side to move once more, now that the other colour was the latest query
+        let again = evaluate::player_is_in_check(b, g, turn);
+        if again != in_check { fails.push((format!("c06:in-check-after-other-colour:{}", who), format!("player_is_in_check = {} when asked again after a query for the other colour; the king {} attacked", again, if in_check { "is" } else { "is not" }))); }
+    }
     let mate = evaluate::player_is_in_checkmate(b, g, turn);
     if mate != (status == "checkmate") { fails.push((format!("c06:checkmate-verdict:{}", who), format!("player_is_in_checkmate = {} but the position is {}", mate, status))); }
     l.add("verdicts_compared", 3);
@@ -350,12 +366,16 @@ pub fn c06(o: &Opts) -> i32 {
         let all = gen::game_cases(&root, &path, "check-seeking-ending", 1);
         for c in all.into_iter().rev().take(3) { if seen.insert(c.pos.key()) { cases.push(c); } }
     }
+    let mut rt = Rng::new(o.seed).fork(tag("c06-terminal"));
+    let tries = if q { 150_000 } else { 1_500_000 };
+    for p in gen::terminal_with_pieces(&mut rt, tries, true) { if seen.insert(p.key()) { ctx.count("stalemates_where_the_stalemated_side_has_pieces", 1); cases.push(Case::setup(p, "stalemate-with-pieces")); } }
+    for p in gen::terminal_with_pieces(&mut rt, tries / 4, false) { if seen.insert(p.key()) { cases.push(Case::setup(p, "mate-with-pieces")); } }
     shuffle_tail(&mut cases, gen::corpus().len(), o.seed);
     run_pool(&ctx, &cases, 0.97, |ctx, st, i, c| c06_case(ctx, st, i, c, 12));
     ctx.finish(ctx.counter("verdicts_compared") + ctx.counter("annotations_compared") + ctx.counter("game_ending_compared"),
         "pool positions plus mate-rich endings; in-check / checkmate / game_ending verdicts and the check/checkmate/none annotation of every legal move are compared with the reference (attack test on the king; legal-move emptiness of the successor). Every 12th position and every terminal one uses a brand-new generator, the rest a long-lived per-thread generator (mismatches re-asked to a fresh one for classification). distinct_nontrivial = distinct positions with check / ep / rights / promotion / pin / terminal",
         &["game_ending is compared only when the half-move clock is <= 20 and the repetition count < 3 (move-count and repetition draws belong to C16/C17)"],
-        &[("checkmated_positions", if q { 50 } else { 500 }), ("stalemated_positions", if q { 20 } else { 200 }), ("moves_giving_mate", 50), ("discovered_checks", 20), ("positions_double_check", 1), ("promotion_checks", 5), ("positions_with_brand_new_generator", if q { 300 } else { 3000 })])
+        &[("checkmated_positions", if q { 50 } else { 500 }), ("stalemated_positions", if q { 20 } else { 200 }), ("moves_giving_mate", 50), ("discovered_checks", 20), ("positions_double_check", 1), ("promotion_checks", 5), ("positions_with_brand_new_generator", if q { 300 } else { 3000 }), ("stalemates_where_the_stalemated_side_has_pieces", 10), ("verdicts_for_the_side_not_to_move", 1000)])
 }
 
 // ======================================================================================= C13
@@ -628,17 +648,19 @@ pub fn c18(o: &Opts) -> i32 {
     } } }
     ctx.count("single_piece_boards_compared", singles);
     let q = ctx.quick();
-    let spec = PoolSpec { walk_depth: if q { 2 } else { 3 }, walk_cap_per_root: if q { 150 } else { 3000 }, setups: if q { 15000 } else { 200000 }, endings: if q { 3000 } else { 30000 }, games: if q { 30 } else { 300 }, game_plies: 160, game_stride: 1 };
+    let spec = PoolSpec { walk_depth: if q { 2 } else { 3 }, walk_cap_per_root: if q { 150 } else { 3000 }, setups: if q { 60000 } else { 400000 }, endings: if q { 6000 } else { 40000 }, games: if q { 80 } else { 500 }, game_plies: 160, game_stride: 1 };
     let mut cases = position_pool(o.seed, &spec);
     let mut r = Rng::new(o.seed).fork(tag("c18-extreme"));
-    for _ in 0..if q { 4000 } else { 60000 } { cases.push(Case::setup(gen::random_setup_profile(&mut r, 4), "material-extreme-setup")); }
+    for _ in 0..if q { 20000 } else { 100000 } { cases.push(Case::setup(gen::random_setup_profile(&mut r, 4), "material-extreme-setup")); }
     for fen in ["7k/8/QQQ5/QQQ5/QQQ5/8/8/K7 w - - 0 1", "k7/8/8/8/8/5qqq/5qqq/K4qqq b - - 0 1", "QQQQQQQQ/Q7/8/8/8/8/k7/7K w - - 0 1", "RNBQKBNR/QQQQQQQQ/8/8/8/8/8/k7 w - - 0 1"] {
         if let Ok(p) = Pos::from_fen(fen) { if p.is_consistent() { cases.push(Case::setup(p, "nine-queens")); } }
     }
+    let mut rt = Rng::new(o.seed).fork(tag("c18-terminal"));
+    for p in gen::terminal_with_pieces(&mut rt, if q { 150_000 } else { 1_500_000 }, true) { ctx.count("stalemates_where_the_stalemated_side_has_pieces", 1); cases.push(Case::setup(p, "stalemate-with-pieces")); }
     shuffle_tail(&mut cases, 0, o.seed);
     run_pool(&ctx, &cases, 0.97, |ctx, st, i, c| c18_case(ctx, st, i, c, min_mate));
     ctx.finish(ctx.counter("static_pairs_compared") + ctx.counter("score_pairs_compared") + singles + 512,
         "metamorphic: each position (castling rights dropped) vs its colour-swapped 180-degree rotation: board_material_score must negate exactly, score() must negate exactly for non-mates and flip sign for mates; every (piece, colour, square) alone and amid queens/rooks (both table phases); material-extreme set-ups up to nine queens; mate scores read black-box for remaining depth 0..255 must be strictly monotone and every non-terminal static score must stay below the smallest mate magnitude; stalemate must score 0. distinct_nontrivial = distinct positions with a non-zero static score",
         &["overflow checks are on in the harness build, so an i16 overflow is a caught panic"],
-        &[("static_pairs_compared", if q { 5000 } else { 100000 }), ("stalemates_scored", 5), ("mate_pairs_compared", 20)])
+        &[("static_pairs_compared", if q { 5000 } else { 100000 }), ("stalemates_scored", 5), ("mate_pairs_compared", 20), ("stalemates_where_the_stalemated_side_has_pieces", 10)])
 }
